@@ -348,3 +348,58 @@ Section GoClear.
     - intros y I. unfold stateKeys, matching_keys in I. now apply filter_In in I as [_ P].
   Qed.
 End GoClear.
+
+(* ------------------------------------------------------------------ the Go loop over any key list *)
+
+Lemma go_clear_all_gen (m : omap val) (d : sdiff) (p : key) (ks : list key) (zl : Z) :
+  wf m -> sd_wf d ->
+  (forall k, has_prefix p k = true -> kmem k ks = om_mem k (ups d) || om_mem k m) ->
+  (zl < 0 \/ Z.of_nat (cnt p (om_keys (ups d)) ks) < zl)%Z ->
+  let del := rev (cp_loop p (om_keys (ups d)) ks zl []) in
+  mview m (fold_left sd_delete del d) = om_filter (fun k => negb (has_prefix p k)) (mview m d) /\
+  forall k, tg (fold_left sd_delete del d) k = tg d k || (has_prefix p k && om_mem k m).
+Proof.
+  intros Wm Sd HK Big. cbn zeta.
+  rewrite cp_loop_all by exact Big. rewrite app_nil_r, rev_involutive.
+  set (del := filter (has_prefix p) ks).
+  assert (KD : forall k, kmem k del = has_prefix p k && (om_mem k (ups d) || om_mem k m)).
+  { intro k. unfold del. rewrite kmem_filter by apply keqb_congr.
+    destruct (has_prefix p k) eqn:P; cbn; [now apply HK | reflexivity]. }
+  pose proof (mview_wf m d Wm Sd) as Wv. split.
+  - rewrite mview_delete_list by assumption.
+    apply om_ext; [now apply wf_del_list | now apply wf_filter |].
+    intro k. rewrite om_get_del_list, om_get_filter by exact Wv. rewrite KD.
+    destruct (has_prefix p k) eqn:P; cbn; [|reflexivity].
+    destruct (om_get k (mview m d)) eqn:G; [|now destruct (om_mem k (ups d) || om_mem k m)].
+    assert (M : om_mem k (mview m d) = true) by (unfold om_mem; now rewrite G).
+    rewrite mview_mem in M by assumption.
+    destruct (om_mem k (ups d)); cbn in *; [reflexivity|].
+    apply andb_prop in M as [_ ->]. reflexivity.
+  - intro k. rewrite tg_delete_list by exact Sd. rewrite KD. unfold tg.
+    now destruct (has_prefix p k), (om_mem k (ups d)), (om_mem k m), (ks_mem k (dels d)).
+Qed.
+
+Lemma kmerge_filter_length f a : forall b,
+  length (filter f (kmerge a b)) = (length (filter f a) + length (filter f b))%nat.
+Proof.
+  induction a as [|x a IHa]; intro b.
+  - now rewrite kmerge_nil_l.
+  - induction b as [|y b IHb].
+    + rewrite kmerge_nil_r. cbn [filter length]. lia.
+    + rewrite kmerge_cons. destruct (kcmp x y); cbn [filter].
+      * destruct (f x); cbn [length]; rewrite IHa; cbn [filter]; lia.
+      * destruct (f x); cbn [length]; rewrite IHa; cbn [filter]; lia.
+      * destruct (f y); cbn [length]; rewrite IHb; cbn [filter]; destruct (f x); cbn [length]; lia.
+Qed.
+
+Lemma kmem_kmerge k a b : kmem k (kmerge a b) = kmem k a || kmem k b.
+Proof.
+  destruct (kmem k (kmerge a b)) eqn:E.
+  - apply kmem_in, kmerge_in in E as [I|I]; apply kmem_in in I; rewrite I; [reflexivity | now rewrite orb_true_r].
+  - destruct (kmem k a) eqn:A.
+    + apply kmem_in in A. assert (I : In k (kmerge a b)) by (apply kmerge_in; now left).
+      apply kmem_in in I. congruence.
+    + destruct (kmem k b) eqn:B; [|reflexivity].
+      apply kmem_in in B. assert (I : In k (kmerge a b)) by (apply kmerge_in; now right).
+      apply kmem_in in I. congruence.
+Qed.
